@@ -957,9 +957,15 @@ def selftest(ctx):
     items += asof_stratum(rng, layouts, cases, 2, only_middle=True)
     # directed configurations: concat operands whose single-partition divisions touch; asof with the right operand cut
     # into one-row partitions with known divisions (matches then lie in the previous partition)
-    nb = nc = 0
+    nb = nc = nsemi = 0
     for c in cases:
         case, exp = c["c"], c["e"]
+        if case["fam"] == "merge" and case["mode"] in ("cc", "kk") and not has_pre(case) and nsemi < 25:
+            key = (lambda r: (r["k"], r["k2"])) if case["mode"] == "kk" else (lambda r: r["k"])
+            rkeys = [key(r) for r in case["R"]]
+            if any(rkeys.count(key(r)) >= 2 for r in case["L"]):
+                nsemi += 1     # a semi join whose left rows have SEVERAL partners on the right
+                items.append(("m%d" % len(items), "merge", case, "leftsemi", merge_config(rng, layouts, case, "leftsemi", exp["mask"]), exp))
         if case["fam"] == "merge" and case["mode"] == "cc" and len(case["L"]) == 3 and len(case["R"]) == 3 and nb < 30 and rng.random() < 0.1:
             nb += 1       # broadcast=True on a join whose PRESERVED side has fewer partitions: it must not be the broadcast one
             how = rng.choice(["left", "right"])
